@@ -12,6 +12,7 @@ Ev == Log[l]
 IsEv(e) == l <= Len(Log) /\ Log[l].e = e /\ l' = l + 1
 Post ==
   /\ Ev.ctor = nctor' /\ Ev.dtor = ndtor' /\ Ev.ca = lastC' /\ Ev.da = lastD'
+  /\ Ev.bad = 0                                   \* no destructor found its object overwritten
   /\ Len(Ev.vals) = Cardinality(DOMAIN inUse')
   /\ \A j \in 1 .. Len(Ev.vals) : Ev.vals[j].a \in DOMAIN inUse' /\ inUse'[Ev.vals[j].a] = Ev.vals[j].v
   /\ \A i, j \in 1 .. Len(Ev.vals) : i # j => Ev.vals[i].a # Ev.vals[j].a
